@@ -137,7 +137,7 @@ def explain(sq, wantk, sts, errs, cname, text):
 
 def check(ctx):
     C.extract(ctx)
-    C.prove(ctx, ["Oq3.Props.C16"] if C.os.path.exists(C.os.path.join(C.LEAN, "Oq3/Props/C16.lean")) else ["Oq3.Props.C01"])
+    C.prove(ctx, ["Oq3.Props.C16", "Oq3.Props.C16Reloc"])
     okb, log = C.cargo_build()
     if not okb:
         C.violation(ctx, "harness-build-failed", {"log": log[-3000:]}, no_input=True)
